@@ -37,6 +37,7 @@ func main() {
 	flag.Parse()
 	if *raceChildFlag {
 		raceChild(cfg.seed, cfg.tier)
+		racingVerify(cfg.seed, cfg.tier)
 		return
 	}
 	g, ok := generators[cfg.prop]
